@@ -106,7 +106,7 @@ def build_coq():
         os.makedirs(os.path.dirname(gen), exist_ok=True)
         r = sh([os.path.join(bindir, 'goref'), 'unicode'])
         open(gen, 'wb').write(r.stdout)
-    if not os.path.exists(os.path.join(COQ, 'Gen', 'GenTables.v')):
+    if not os.path.exists(os.path.join(COQ, 'Gen', 'GenTables.v')) or not os.path.exists(os.path.join(COQ, 'Gen', 'GenNfc.v')):
         gen_tables()
     if not os.path.exists(os.path.join(COQ, 'Makefile')) or \
             os.path.getmtime(os.path.join(COQ, 'Makefile')) < os.path.getmtime(os.path.join(COQ, '_CoqProject')):
@@ -150,6 +150,19 @@ def gen_tables():
     r = sh([os.path.join(bindir, 'gotrans'), REPO], check=False)
     if r.returncode != 0:
         raise RuntimeError('gotrans failed: ' + r.stderr.decode(errors='replace'))
+    old = open(out, 'rb').read() if os.path.exists(out) else None
+    if old != r.stdout:
+        open(out, 'wb').write(r.stdout)
+    gen_nfc()
+    return out
+
+
+def gen_nfc():
+    """Gen/GenNfc.v: the normalisation tables of the x/text version the interpreter is linked with"""
+    out = os.path.join(COQ, 'Gen', 'GenNfc.v')
+    r = sh([os.path.join(build_impl(), 'godump'), 'nfctables'], check=False)
+    if r.returncode != 0 or b'gen_comp' not in r.stdout:
+        raise RuntimeError('godump nfctables failed: ' + r.stderr.decode(errors='replace')[-300:])
     old = open(out, 'rb').read() if os.path.exists(out) else None
     if old != r.stdout:
         open(out, 'wb').write(r.stdout)
@@ -496,7 +509,7 @@ def model_stdout(events_field):
         kind, _, body = ev.partition(':')
         txt = ''.join(chr(int(x)) for x in body.split(',')) if body else ''
         if kind == 'P':
-            out.append(nfc(txt) + '\n')
+            out.append(txt + '\n')        # already in NFC: Model/Render.v applies Model/Nfc.v
         elif kind == 'E':
             out.append(txt + '\n')
         elif kind == 'Q':
